@@ -16,6 +16,7 @@ import CorgiProofs.PathSum
 import CorgiProofs.EngineFrame
 import CorgiProofs.Reachable
 import CorgiProofs.LinearHeap
+import CorgiProofs.ShapeCheckSound
 
 set_option linter.unusedSectionVars false
 
@@ -134,6 +135,19 @@ theorem C01_grad_shape_of_stored_closures [AddLaws S] [MulLaws S] {σ : State S}
     (fun n s _ _ _ => by simp [stores, hleaf]) (graph_lawful σ g.heap) (σ.nodes.size + 1) h.node
     (by have := hv.1; omega) h.dims seed σ.estate e (estate_clean σ g.heap) rfl hgr x hseed hxs hok).2
 
+/-- **The hypothesis is decided at run time.**  `shapeOKb` is an executable check of `ShapeOK` (sound:
+    `shapeOKb_sound`); the model driver evaluates it on the state before every pass of every correspondence
+    run, so for each executed pass on which it answers `ok` — and the runs tie the model's states to the
+    implementation's — the path-sum statement below holds with no assumption left about the operations. -/
+theorem C01_pathsum_when_check_passes [AddLaws S] [MulLaws S] {σ : State S} (g : Good σ) (hb : shapeOKb σ = true)
+    (ℓ j : Nat) (hleaf : σ.graph.kids ℓ = []) (h : Handle) (hv : h.Valid σ) (seed : Option (Tensor S))
+    (hgr : ∀ t, σ.estate.grad ℓ = some t → Shaped (σ.dimsOf ℓ) t)
+    (x : Tensor S) (hseed : seedOrOnes seed h.dims = .ok x) (hxs : Shaped (σ.dimsOf h.node) x)
+    (e : EState S) (hok : Corgi.backward σ.graph (σ.nodes.size + 1) h.node h.dims h.keep seed σ.estate = .ok e) :
+    gradVal ℓ j e = gradVal ℓ j σ.estate
+      + P (σ.sem (fun _ => h.keep) g.heap (shapeOKb_sound σ hb)) ℓ j h.node x :=
+  C01_pathsum_of_stored_closures g (shapeOKb_sound σ hb) ℓ j hleaf h hv seed hgr x hseed hxs e hok
+
 end Corgi
 
 #print axioms Corgi.C01_every_path_once
@@ -146,3 +160,4 @@ end Corgi
 #print axioms Corgi.C01_leaf_needs_no_keep
 #print axioms Corgi.C01_pathsum_of_stored_closures
 #print axioms Corgi.C01_grad_shape_of_stored_closures
+#print axioms Corgi.C01_pathsum_when_check_passes
